@@ -215,15 +215,16 @@ def same_value(env, a, b):
     return env.eq(a, b)
 
 
-def outputs_equal(env, tag, o1, o2, kf=None):
-    """obligations: two results of predict / predict_expectations are equal term by term"""
+def outputs_equal(env, tag, o1, o2, kf=None, alt=None):
+    """obligations: two results of predict / predict_expectations are equal term by term.
+    kf/alt: id of a listed known finding and the output of the bug-compatible reference (same structure)"""
     if isinstance(o1, list) != isinstance(o2, list):
         env.ob(tag + '.shape', False)
         return
     if isinstance(o1, list):
         env.ob(tag + '.len', len(o1) == len(o2))
         for i, (x, y) in enumerate(zip(o1, o2)):
-            outputs_equal(env, '%s.row%d' % (tag, i), x, y, kf)
+            outputs_equal(env, '%s.row%d' % (tag, i), x, y, kf, alt[i] if isinstance(alt, list) and i < len(alt) else None)
         return
     if isinstance(o1, dict) != isinstance(o2, dict):
         env.ob(tag + '.kind', False)
@@ -232,9 +233,11 @@ def outputs_equal(env, tag, o1, o2, kf=None):
         env.ob(tag + '.keys', [pyval(k) for k in o1.keys()] == [pyval(k) for k in o2.keys()])
         for k in o1:
             if k in o2:
-                env.ob('%s[%s]' % (tag, k), same_value(env, o1[k], o2[k]), kf=kf)
+                a = same_value(env, o1[k], alt[k]) if isinstance(alt, dict) and k in alt else None
+                env.ob('%s[%s]' % (tag, k), same_value(env, o1[k], o2[k]), kf=kf if a is not None else None, alt=a)
         return
-    env.ob(tag + '.arm', same_value(env, pyval(o1), pyval(o2)), kf=kf)
+    a = same_value(env, pyval(o1), pyval(alt)) if alt is not None and not isinstance(alt, (list, dict)) else None
+    env.ob(tag + '.arm', same_value(env, pyval(o1), pyval(o2)), kf=kf if a is not None else None, alt=a)
 
 
 def compositions(n, max_parts):
